@@ -657,14 +657,15 @@ func (c *CEDARTLSConnection) receiveMessage(ctx context.Context) ([]byte, error)
 		return nil, fmt.Errorf("failed to get TLS data length: %w", err)
 	}
 
-	// HTCondor protocol: receive data bytes third (if length > 0)
-	data := make([]byte, length)
-	for i := 0; i < length; i++ {
-		b, err := msg.GetChar(ctx)
-		if err != nil {
-			return nil, fmt.Errorf("failed to get TLS data byte %d: %w", i, err)
-		}
-		data[i] = b
+	// HTCondor protocol: receive data bytes third (if length > 0). The length is
+	// peer-controlled: reject a negative value, and let GetBytes size the buffer
+	// only once that many bytes have actually arrived in this message.
+	if length < 0 {
+		return nil, fmt.Errorf("invalid TLS data length %d", length)
+	}
+	data, err := msg.GetBytes(ctx, length)
+	if err != nil {
+		return nil, fmt.Errorf("failed to get TLS data (%d bytes): %w", length, err)
 	}
 
 	// Update peer status
